@@ -18,8 +18,10 @@ SEC_MATCHES = (Const([]), Const([('SEC', ['14'], 11, 17)]), Const([('SEC', ['14'
 
 
 def _setup(ip, env):
+    # the preprocessed text is an uninterpreted function of the original one; it is at least as long as the last ghost match span
+    span_end = max([m[3] for m in list(env['twprge_matches']) + list(env['sec_matches'])] + [0])
     plss_stubs.install(ip, twprge_matches=env['twprge_matches'], sec_matches=env['sec_matches'],
-                       layout_oracle=env.get('deduced'))
+                       layout_oracle=env.get('deduced'), pp_identity=False, pp_len_min=span_end + 5 if span_end else 0)
 
 
 def make_parser(text, layout, segment, sec_within, parse_qq, clean_up):
@@ -28,12 +30,15 @@ def make_parser(text, layout, segment, sec_within, parse_qq, clean_up):
                       handed_down_config='')
 
 
-def one_whole_text_tract(p, twprge_matches, sec_matches):
+def one_whole_text_tract(p, twprge_matches, sec_matches, text, hooks_):
+    # the description is the entire *preprocessed* text (what the PLSSPreprocessor abstraction returned for `text`), the original
+    # text is recorded next to it
     ts = p.tracts._elements
     found_both = len(twprge_matches) > 0 and len(sec_matches) > 0
     return (len(ts) == 1
-            and ts[0].desc == p.text
-            and ts[0].orig_desc == p.orig_text
+            and len(hooks_[('pp_text',)]) == 1
+            and ts[0].desc == hooks_[('pp_text',)][0]
+            and ts[0].orig_desc == text
             and implies(not found_both, len(p.e_flags) >= 1 and len(ts[0].e_flags) >= 1)
             and len(p.e_flags) == len(p.e_flag_lines) and len(p.w_flags) == len(p.w_flag_lines)
             and ts[0].trs == (twprge_matches[0][1] if len(twprge_matches) > 0 else 'XXXzXXXz')
@@ -47,8 +52,8 @@ def _forced_unit():
                 'clean_up': Choice(Const(None), Const(True))},
         ghost={'twprge_matches': Choice(*TWP_MATCHES), 'sec_matches': Choice(*SEC_MATCHES)},
         setup_params=_setup,
-        ensures=[('exactly_one_tract_with_the_whole_text', lambda text, clean_up, twprge_matches, sec_matches, result:
-                  implies(clean_up is None, one_whole_text_tract(result, twprge_matches, sec_matches))
+        ensures=[('exactly_one_tract_with_the_whole_text', lambda text, clean_up, twprge_matches, sec_matches, result, hooks_:
+                  implies(clean_up is None, one_whole_text_tract(result, twprge_matches, sec_matches, text, hooks_))
                   and len(result.tracts._elements) == 1)])
 
 
@@ -61,8 +66,8 @@ def _fallback_unit():
         ghost={'twprge_matches': Choice(*TWP_MATCHES), 'sec_matches': Const([]),
                'deduced': Choice(Const('TRS_desc'), Const('desc_STR'), Const('S_desc_TR'), Const('TR_desc_S'), Const('copy_all'))},
         setup_params=_setup,
-        ensures=[('exactly_one_tract_with_the_whole_text', lambda twprge_matches, sec_matches, result:
-                  one_whole_text_tract(result, twprge_matches, sec_matches))])
+        ensures=[('exactly_one_tract_with_the_whole_text', lambda text, twprge_matches, sec_matches, result, hooks_:
+                  one_whole_text_tract(result, twprge_matches, sec_matches, text, hooks_))])
 
 
 def _setup_with_cleanup(ip, env):
@@ -80,9 +85,9 @@ def _deduced_copy_all_segment_unit():
         params={'text': Str(), 'layout': Const(None), 'segment': Const(True), 'sec_within': Bool(), 'parse_qq': Const(False),
                 'clean_up': Const(None)},
         ghost={'twprge_matches': Choice(*TWP_MATCHES), 'sec_matches': Choice(*SEC_MATCHES), 'deduced': Const('copy_all')},
-        requires=lambda text: len(text) >= 45, setup_params=_setup_with_cleanup,
-        ensures=[('exactly_one_tract_with_the_whole_text', lambda twprge_matches, sec_matches, result:
-                  one_whole_text_tract(result, twprge_matches, sec_matches))])
+        setup_params=_setup_with_cleanup,
+        ensures=[('exactly_one_tract_with_the_whole_text', lambda text, twprge_matches, sec_matches, result, hooks_:
+                  one_whole_text_tract(result, twprge_matches, sec_matches, text, hooks_))])
 
 
 def units():
@@ -121,8 +126,28 @@ def _init_unit():
                   and implies(hooks_[('plssparser_args',)][0]['layout'] == 'copy_all', hooks_[('plssparser_args',)][0]['segment'] is False))])
 
 
+def _segment_fallback_unit():
+    """segment on, two Twp/Rge chunks, no section accepted in either: every chunk falls back to copy_all *on its own text* -- one
+    tract per chunk, each carrying its chunk, so no two tracts (here: none at all) carry the complete text"""
+    def post(result, hooks_):
+        ts = result.tracts._elements
+        whole = hooks_[('pp_text',)][0]
+        return (len(ts) == 2
+                and sum([1 for t in ts if t.desc == whole]) <= 1
+                and all([len(t.desc) < len(whole) for t in ts])
+                and len(result.e_flags) >= 1 and len(result.e_flags) == len(result.e_flag_lines))
+    return Unit(
+        name='C11/PLSSParser[segment: every chunk falls back on its own text]', prop='C11', target='props.c11:make_parser',
+        params={'text': Str(), 'layout': Const(None), 'segment': Const(True), 'sec_within': Const(False), 'parse_qq': Const(False),
+                'clean_up': Const(None)},
+        ghost={'twprge_matches': Const([('TWPRGE', '154n97w', 0, 10), ('TWPRGE', '155n97w', 30, 40)]), 'sec_matches': Const([]),
+               'deduced': Choice(Const('TRS_desc'), Const('desc_STR'), Const('S_desc_TR'), Const('TR_desc_S'))},
+        setup_params=_setup_with_cleanup,
+        ensures=[('no_two_tracts_carry_the_whole_text', post)])
+
+
 def units():
-    return [_forced_unit(), _fallback_unit(), _deduced_copy_all_segment_unit(), _init_unit()]
+    return [_forced_unit(), _fallback_unit(), _deduced_copy_all_segment_unit(), _segment_fallback_unit(), _init_unit()]
 
 
 # ======================================================================================================================
@@ -148,7 +173,9 @@ def _bounded_copyall(tier, seed):
     n = 40 if tier == 'quick' else 1200
     texts = texts + ['T154N-R97W Sec 24 - 27: S/2, Sec 28: N/2', 'Sec 24 - 27: S/2', 'T154N-R97W Sec 24 - 27 S/2', 'T154N-R97W NE/4',
                      'The W/2 of the tract, T154N-R97W', 'T154N-R97W: all lands north of the river; T155N-R97W: all lands south of it',
-                     'T154N-R97W and T155N-R97W, and also T156N-R97W, no section given', 'Sec 14: NE/4, Sec 15: W/2 and Sec 16: ALL, township unknown']
+                     'T154N-R97W and T155N-R97W, and also T156N-R97W, no section given',
+                     'T154N-R97W Sec 14 NE/4, T155N-R97W Sec 15 W/2', 'T154N-R97W of Section 14 NE/4; T155N-R97W of Section 15 W/2',
+                     'T154N-R97W Sec 14 NE/4, T155N-R97W Sec 15: W/2', 'NE/4 of the farm, T154N-R97W, W/2 of the ranch, T155N-R97W', 'Sec 14: NE/4, Sec 15: W/2 and Sec 16: ALL, township unknown']
     texts = texts + gen.token_soup(rng, n, max_tokens=9)
     for desc in gen.abstract_descriptions(rng, n // 4):
         w = gen.render(desc, rng.choice(gen.LAYOUTS), twp_style=rng.randrange(6), sec_word=rng.choice(gen.SEC_WORDS), colon=rng.random() < 0.6)
@@ -177,7 +204,7 @@ def _bounded_copyall(tier, seed):
                 elif tracts[0].trs_is_error() and not d.e_flags:
                     bad({'text': text, 'channel': chan, 'config': extra}, 'no error flag', 'error flag for an error TRS')
         # fallback with deduced layout
-        for cfg in ('', 'sec_colon_required', 'segment', 'sec_within'):
+        for cfg in ('', 'sec_colon_required', 'segment', 'sec_within', 'segment,sec_colon_required', 'segment,sec_within'):
             try:
                 d = pytrs.PLSSDesc(text, config=cfg)
             except Exception as e:
